@@ -3,8 +3,13 @@
 //! through ShardReplicaState directly (clock visible after every event) or through the real
 //! ReplicatedShardActor (ApplyRecoveredState path; only deltas and the final snapshot visible).
 //! Peers 2 and 3 are real ShardReplicaStates that produce the remote deltas.
+//! A third of the histories additionally drive a whole production node (ReplicatedShardedState)
+//! through crashes and apply_recovered_state(checkpoint, deltas) with the persisted deltas coming
+//! back as segments in any order.
 use rand::Rng as _;
-use redis_sim::production::ReplicatedShardActor;
+use redis_sim::production::{ReplicatedShardActor, ReplicatedShardedState};
+use redis_sim::replication::ReplicationConfig;
+use rand::seq::SliceRandom;
 use redis_sim::redis::{Command, SDS};
 use redis_sim::replication::lattice::ReplicaId;
 use redis_sim::replication::state::{ReplicatedValue, ReplicationDelta, ShardReplicaState};
@@ -89,7 +94,8 @@ fn main() {
     out.nontrivial_rule = "node histories of replica 1: up to 3 incarnations separated by crashes; per incarnation 3-10 events (local SET/DEL/HSET/HDEL, remote deltas produced by two real peer states with clocks behind/ahead/far ahead, recovered checkpoint entries and recovered deltas); incarnations run on ShardReplicaState directly or through the real ReplicatedShardActor; one Coq case per incarnation; non-trivial = the incarnation issued at least one stamp after seeing a remote or recovered value; distinct by event text".into();
     std::panic::set_hook(Box::new(|_| {}));
     let rt = tokio::runtime::Builder::new_current_thread().enable_all().build().unwrap();
-    let range: Vec<u64> = match args.only { Some(i) => vec![i], None => (0..args.n).collect() };
+    // case ids are 8 * history + incarnation (+ 4 for the whole-node flavour)
+    let range: Vec<u64> = match args.only { Some(c) => vec![c / 8], None => (0..args.n).collect() };
     for i in range {
         let mut rng = case_rng(args.seed, i);
         let causal = rng.gen_bool(0.25);
@@ -214,13 +220,13 @@ fn main() {
                 out.count("abandoned:actor-task-died-in-glue-debug-assert");
                 break;
             }
-            let cid = i * 4 + inc as u64;
+            let cid = i * 8 + inc as u64;
             for e in &evs { out.count(&format!("ev:{}", ev_kind(e))); }
             out.count(if use_actor { "mode:actor" } else { "mode:direct" });
             let nr = NOREPL.with(|c| c.replace(0));
             for _ in 0..nr { out.count("non-replicated command interleaved (FLUSHALL/FLUSHDB/LPUSH/PING/PERSIST)"); }
             if UNEXPECTED_DELTA.with(|c| c.replace(false)) {
-                out.violation(i * 4 + inc as u64, "a command that is not replicated emitted a delta", json!({"events": evs.iter().map(ev_term).collect::<Vec<_>>()}));
+                out.violation(i * 8 + inc as u64, "a command that is not replicated emitted a delta", json!({"events": evs.iter().map(ev_term).collect::<Vec<_>>()}));
             }
             // ---- the property, on the implementation
             let mut seen_max: Option<u64> = None;
@@ -291,7 +297,125 @@ fn main() {
             }
         }
     }
+    // ---- whole-node flavour: a production node (ReplicatedShardedState, 16 shard actors) that crashes
+    // and is rebuilt by apply_recovered_state(checkpoint, deltas); what was persisted comes back as
+    // segments in any order (RecoveryManager sorts segments by their smallest stamp only)
+    let range: Vec<u64> = match args.only { Some(c) => vec![c / 8], None => (0..args.n).collect() };
+    for i in range {
+        let mut rng = case_rng(args.seed ^ 0x0c08_40de, i);
+        if !rng.gen_bool(0.3) { continue; }
+        node_history(&rt, &mut rng, i, &mut out, args);
+    }
     out.finish(args.seed);
+}
+
+/// One history of a whole node; all commands go to one key (a node has 16 shards with independent
+/// clocks, the model is one shard), which holds either strings or hashes.
+fn node_history(rt: &tokio::runtime::Runtime, rng: &mut Rng, i: u64, out: &mut Out, args: &Args) {
+    let stringy = rng.gen_bool(0.6);
+    let key = if stringy { "k" } else { "j" }.to_string();
+    let incarnations = rng.gen_range(2..4);
+    let mut persisted: Vec<(String, ReplicatedValue)> = Vec::new(); // every delta the node ever emitted, in order
+    let mut issued_before: Vec<(u64, u64)> = Vec::new();
+    let mut checkpoint: Option<BTreeMap<String, ReplicatedValue>> = None;
+    for inc in 0..incarnations {
+        let cid = i * 8 + 4 + inc as u64;
+        let mut evs: Vec<Ev> = Vec::new();
+        let mut observed: Vec<Obs> = Vec::new();
+        let mut final_keys: BTreeMap<String, ReplicatedValue> = BTreeMap::new();
+        // the recovery input of this incarnation: the persisted deltas cut into segments, segments in any order
+        let mut recovered: Vec<(String, ReplicatedValue)> = Vec::new();
+        if inc > 0 {
+            let mut segs: Vec<Vec<(String, ReplicatedValue)>> = Vec::new();
+            let mut j = 0;
+            while j < persisted.len() {
+                let n = rng.gen_range(1..4).min(persisted.len() - j);
+                segs.push(persisted[j..j + n].to_vec());
+                j += n;
+            }
+            if rng.gen_bool(0.7) { segs.shuffle(rng); }
+            recovered = segs.into_iter().flatten().collect();
+        }
+        let cp = if inc > 0 { checkpoint.clone() } else { None };
+        let steps = rng.gen_range(2..7);
+        let mut local: Vec<Ev> = Vec::new();
+        for _ in 0..steps {
+            local.push(if stringy {
+                match rng.gen_range(0..10) {
+                    0..=7 => Ev::Write(key.clone(), VALS[rng.gen_range(0..VALS.len())].to_vec(), None),
+                    _ => Ev::Delete(key.clone()),
+                }
+            } else {
+                match rng.gen_range(0..10) {
+                    0..=6 => { let n = rng.gen_range(1..3); Ev::HSet(key.clone(), (0..n).map(|_| (FIELDS[rng.gen_range(0..FIELDS.len())].to_string(), VALS[rng.gen_range(0..VALS.len())].to_vec())).collect()) }
+                    _ => Ev::HDel(key.clone(), vec![FIELDS[rng.gen_range(0..FIELDS.len())].to_string()]),
+                }
+            });
+        }
+        let mut cp_at_crash: BTreeMap<String, ReplicatedValue> = BTreeMap::new();
+        rt.block_on(async {
+            let mut cfg = ReplicationConfig::default();
+            cfg.replica_id = 1;
+            let node = ReplicatedShardedState::new(cfg);
+            if inc > 0 {
+                if let Some(c) = &cp { for (k, v) in c.iter() { evs.push(Ev::Recover(k.clone(), v.clone())); observed.push(Obs { clock: None, delta: None }); } }
+                for (k, v) in recovered.iter() { evs.push(Ev::Remote(k.clone(), v.clone())); observed.push(Obs { clock: None, delta: None }); }
+                node.apply_recovered_state(
+                    cp.as_ref().map(|c| c.iter().map(|(k, v)| (k.clone(), v.clone())).collect()),
+                    recovered.iter().map(|(k, v)| ReplicationDelta::new(k.clone(), v.clone(), v.timestamp.replica_id)).collect(),
+                );
+                let _ = node.snapshot_state().await;
+            }
+            for e in local.iter() {
+                let cmd = match e {
+                    Ev::Write(k, v, _) => Command::set(k.clone(), SDS::new(v.clone())),
+                    Ev::Delete(k) => Command::Del(vec![k.clone()]),
+                    Ev::HSet(k, fs) => Command::HSet(k.clone(), fs.iter().map(|(f, v)| (SDS::from_str(f), SDS::new(v.clone()))).collect()),
+                    Ev::HDel(k, fs) => Command::HDel(k.clone(), fs.iter().map(|f| SDS::from_str(f)).collect()),
+                    _ => unreachable!(),
+                };
+                let _ = node.execute(cmd).await;
+                let ds = node.collect_pending_deltas().await;
+                evs.push(e.clone());
+                observed.push(Obs { clock: None, delta: ds.last().map(|d| d.value.clone()) });
+                for d in ds { persisted.push((d.key.clone(), d.value.clone())); }
+            }
+            for (k, v) in node.snapshot_state().await { final_keys.insert(k.clone(), v.clone()); cp_at_crash.insert(k, v); }
+        });
+        out.count("mode:whole-node (ReplicatedShardedState, apply_recovered_state)");
+        for e in &evs { out.count(&format!("ev:{}", ev_kind(e))); }
+        // ---- the property on the implementation: every stamp issued exceeds every stamp this node issued before
+        let mut last: Option<(u64, u64)> = None;
+        for (n, e) in evs.iter().enumerate() {
+            let is_write = matches!(e, Ev::Write(..)) || matches!(e, Ev::HSet(_, fs) if !fs.is_empty());
+            if let (true, Some(d)) = (is_write, &observed[n].delta) {
+                out.impl_checks += 1;
+                let st = (d.timestamp.time, d.timestamp.replica_id.0);
+                let bad_restart = issued_before.iter().any(|p| st <= *p);
+                let bad_prev = last.map_or(false, |p| st <= p);
+                if bad_restart || bad_prev || st.1 != 1 {
+                    out.violation(cid, if bad_restart { "a stamp issued after a whole-node restart does not exceed a stamp the node issued (and persisted) before the crash" } else { "issued stamps do not strictly increase" },
+                        json!({"incarnation": inc, "event_index": n, "event": ev_term(e), "issued": format!("{:?}", st), "issued_by_earlier_incarnations": format!("{:?}", issued_before),
+                               "recovered_deltas_in_order": recovered.iter().map(|(k, v)| format!("{} @ {:?}", k, (v.timestamp.time, v.timestamp.replica_id.0))).collect::<Vec<_>>(),
+                               "checkpoint": cp.is_some(), "events": evs.iter().map(ev_term).collect::<Vec<_>>()}));
+                }
+                last = Some(st);
+            }
+        }
+        for o in &observed { if let Some(d) = &o.delta { issued_before.push((d.timestamp.time, d.timestamp.replica_id.0)); } }
+        // ---- the Coq case of this incarnation (one key, hence one shard)
+        let obs_terms = clist(observed.iter(), |o| format!("({}, {})", copt(&o.clock, |c| c.to_string()), copt(&o.delta, |d| rv_term(d, false))));
+        let fin = clist(final_keys.iter(), |(k, v)| format!("({}, {})", chex(k.as_bytes()), rv_term(v, false)));
+        let evt = clist(evs.iter(), ev_term);
+        out.case(cid, format!("(K false {} {} {})", evt, obs_terms, fin), inc > 0, &evt);
+        out.sample(json!({"incarnation": inc, "whole_node": true, "events": evs.iter().map(ev_term).collect::<Vec<_>>()}));
+        if args.only.is_some() {
+            println!("case {} whole-node incarnation {}:", i, inc);
+            for (n, e) in evs.iter().enumerate() { println!("  {} -> delta {}", ev_term(e), observed[n].delta.as_ref().map(obs).unwrap_or_default()); }
+        }
+        // what is durable at the crash: every emitted delta; now and then also a checkpoint of the state
+        if rng.gen_bool(0.3) { checkpoint = Some(cp_at_crash); }
+    }
 }
 
 /// next event of the running incarnation: a local operation or a delta from a peer
